@@ -277,6 +277,45 @@ func TestC14ColumnPaths(t *testing.T) {
 	})
 }
 
+// The same for String-based columns holding values of a mebibyte and more next to short ones
+// (a vectored writer may chain such values from the column's own memory).
+func TestC14HugeValuePaths(t *testing.T) {
+	var strKinds []*gen.Kind
+	for _, name := range []string{"String|X|String", "Array(String)|Array(X)|String", "Nullable(String)|Nullable(X)|String"} {
+		if k := gen.ByName[name]; k != nil {
+			strKinds = append(strKinds, k)
+		}
+	}
+	if len(strKinds) == 0 {
+		t.Fatal("harness: no String kinds")
+	}
+	rapid.Check(t, func(rt *rapid.T) {
+		k := strKinds[rapid.IntRange(0, len(strKinds)-1).Draw(rt, "kind")]
+		n := rapid.IntRange(1, 4).Draw(rt, "rows")
+		rows := gen.DrawRows(rt, k, n)
+		for h := rapid.IntRange(1, 2).Draw(rt, "huge-values"); h > 0; h-- {
+			at := rapid.IntRange(0, n-1).Draw(rt, "huge-at")
+			size := rapid.SampledFrom([]int{1<<20 - 1, 1 << 20, 1<<20 + 1, 1<<20 + 70_000, 3 << 20}).Draw(rt, "huge-bytes")
+			v := gen.Expand(rapid.Uint64().Draw(rt, "huge-seed"), size)
+			switch k.Shape {
+			case "X":
+				rows[at] = v
+			case "Array(X)":
+				rows[at] = []ref.Val{[]byte("before"), v, []byte("after")}
+			case "Nullable(X)":
+				rows[at] = ref.Null{V: v}
+			}
+		}
+		cols := []colSpec{{Name: "s", Kind: k, Rows: rows}}
+		if rapid.Bool().Draw(rt, "second-column") {
+			k2 := gen.DrawKind(rt, "kind2")
+			cols = append(cols, colSpec{Name: "other", Kind: k2, Rows: gen.DrawRows(rt, k2, n)})
+		}
+		checkPaths(rt, cols, n)
+		stats.G().Label("huge-values")
+	})
+}
+
 // The same for LowCardinality columns whose dictionary crosses a key-width boundary (the
 // vectored path picks the key slice by width).
 func TestC14LargeDictionaryPaths(t *testing.T) {
